@@ -16,8 +16,9 @@ XRec == ndJsonDeserialize(IOEnv.TRACE)
 
 VARIABLES l, S, dig, skip, lastcmp, stats
 
+IdAdj(n, t) == t
 INSTANCE TraceSpec WITH SAdd <- DAdd, SMul <- DMul, SNeg <- DNeg, SDiv <- DDiv, SFn <- DFn,
-                        SPow <- DPow, SDPow <- DDPow, SZero <- DZero, SOne <- DOne,
+                        SPow <- DPow, SDPow <- DDPow, SZero <- DZero, SOne <- DOne, AdjCanon <- IdAdj,
                         TIn <- XTIn, TMatch <- XTMatch, SIn <- XSIn, SMatch <- XSMatch, SGt <- XSGt,
                         PIn <- XPIn, Canon <- XCanon, Tainted <- XTainted, Exact <- TRUE, Rec <- XRec
 =============================================================================
